@@ -2,7 +2,7 @@
 from __future__ import annotations
 import dataclasses
 import struct, uuid, os, json
-import prelude, gen
+import rpcfmt, prelude, gen
 from check import canon_exc, hx
 from gen import u16
 
@@ -249,6 +249,17 @@ def run(ctx):
             ctx.count(f"reply_auth_pad:{'none' if pad is None else 'zero' if pad == 0 else 'nonzero'}")
             if got != "ok " + gen.env_fields(env):
                 ctx.violation("the GetKey reply is not decoded to the envelope it carries", {"envelope_len": len(eb), "auth_pad_length": pad}, got[:100], "the envelope")
+            # … and the same reply as OCTETS OFF THE WIRE (the response PDU decoded by the library first), under every convention a server
+            # may follow for the allocation hint: absent, the marshalled length, the length including the auth padding, larger
+            from dpapi_ng._rpc import _pdu
+            for hint in (0, len(reply), len(reply) + (pad or 0), len(reply) + 64):
+                wire = rpcfmt.finalize(dataclasses.replace(resp, alloc_hint=hint))
+                got_w = call(lambda: gen.env_fields(cl._process_get_key_result(_pdu.PDU.unpack(wire))), fmt=str)
+                ctx.count("reply_from_wire")
+                if got_w != "ok " + gen.env_fields(env):
+                    ctx.violation("the GetKey reply, decoded from the response PDU's octets, is not the envelope it carries",
+                                  {"envelope_len": len(eb), "auth_pad_length": pad, "alloc_hint": hint, "reply_len": len(reply), "wire": hx(wire)[:200]}, got_w[:100], "the envelope")
+                    break
     ctx.compare_batch(cases, nontrivial=lambda line, impl: impl.startswith("ok"))
 
 
